@@ -389,6 +389,14 @@ func ParseData(data []byte) (config Config, err error) {
 		exitSequence = append(exitSequence, evcode)
 	}
 
+	// the device keeps both in 8 bits
+	if cfg.Defaults.Octave < -128 || cfg.Defaults.Octave > 127 {
+		return Config{}, fmt.Errorf("default octave \"%d\" not in -128-127 range", cfg.Defaults.Octave)
+	}
+	if cfg.Defaults.Semitone < -128 || cfg.Defaults.Semitone > 127 {
+		return Config{}, fmt.Errorf("default semitone \"%d\" not in -128-127 range", cfg.Defaults.Semitone)
+	}
+
 	if cfg.Defaults.Channel < 1 || cfg.Defaults.Channel > 16 {
 		return Config{}, fmt.Errorf("default channel \"%d\" not in 1-16 range", cfg.Defaults.Channel)
 	}
